@@ -23,7 +23,7 @@ EXPLANATION = (
     'order, iterating directly over get_unpacked_params_list(). C05.e: enumerator and indexer take the axis order '
     'from the same sorted provider (C order), and no other iteration over the unpacked-parameter set leaks set '
     'order into an order-sensitive sink. Not decided: user predicates, parallel execution, merged values (C06).'
-    ' General rules also applied here (see DESIGN 10.5): falsy-zero (Optional numeric parameters tested with `is None`, never by truthiness).')
+    ' General rules also applied here (see DESIGN 10.5): falsy-zero (Optional numeric parameters tested with `is None`, never by truthiness). C05.h: index sets returned by get_pack_indexes are consumed as sets, never through a slice between their end points.')
 
 
 def check(ctx: Ctx) -> None:
@@ -437,6 +437,12 @@ def _order_insensitive(fn: FuncInfo, node: ast.AST, it_expr: ast.AST, sn: str) -
 _TRY_BODY = r'current_sim_results\.merge_all_results\(self\.__run_simulation_and_track_elapsed_time\(current_params\)\)'
 
 MUTANTS = [
+    Mutant('matching-results-taken-as-a-span', 'pyphysim/simulations/results.py', 'SimulationResults.get_result_values_list',
+           [('regex', r'out = \[v\.get_result\(\) for [^\n]*? if i in indexes\]', 'out = [v.get_result() for v in self[result_name][indexes[0]:indexes[-1] + 1]]')],
+           r'C05\.h:SimulationResults\.get_result_values_list:span:indexes'),
+    Mutant('benign-matching-results-by-member', 'pyphysim/simulations/results.py', 'SimulationResults.get_result_values_list',
+           [('regex', r'out = \[v\.get_result\(\) for [^\n]*? if i in indexes\]', 'out = [self[result_name][i].get_result() for i in indexes]')],
+           None, benign=True),
     Mutant('increment-after-try', RUNNER, 'SimulationRunner._simulate_for_current_params_common',
            [('regex', r'(\n\s*)current_rep \+= 1\n', r'\n'),
             ('regex', r"(\n(\s*)self\._simulation_results_saver\.save_partial_results_maybe)", r'\n\2current_rep += 1\1')],
